@@ -7,34 +7,56 @@ PROP = dict(
     replay_config='tsan',
     case_timeout=60,
     level_text=('generated-input search over thread/operation assignments: '
-                '2..16 pthreads released from a barrier run generated lists of '
-                'codec calls on a shared read-only pool (arrays, doubles, '
-                'pre-encoded buffers, one prebuilt dictionary) with '
-                'thread-private outputs, fully instrumented with '
-                'ThreadSanitizer (any report is a violation), and every '
-                'thread\'s outputs are compared with a sequential run; repeated '
-                'uninstrumented at full speed for result comparison under real '
+                '2..16 pthreads released from a barrier run (1) generated lists '
+                'of codec calls on a shared read-only pool (arrays, doubles, '
+                'pre-encoded buffers, one prebuilt dictionary) and (2) a hot '
+                'loop in which every thread calls the same codec entry point '
+                'back to back on one of four equal-length inputs (shared or a '
+                'thread-private copy), all with thread-private outputs; fully '
+                'instrumented with ThreadSanitizer (any report is a '
+                'violation), and every result of every iteration (returned '
+                'length, metadata fields, output bytes) is compared with a '
+                'sequential run; repeated uninstrumented at full speed with '
+                '~10x the iterations for result comparison under real '
                 'contention'),
     level_note=('interleavings are not enumerated: ThreadSanitizer\'s '
                 'happens-before detection makes a race on an exercised shared '
                 'location visible largely independent of timing, races on '
-                'paths the generator does not reach stay invisible; trusts '
-                'ThreadSanitizer, glibc malloc/qsort being thread-safe, and the '
-                'harness hash of outputs'),
-    rule=('case = (2..16 threads, repeat count, three pool arrays from the '
-          'shared array generator, per thread 1..8 operations (codec, input '
-          'selector)); non-trivial = at least two threads run the same codec '
-          'on the same shared pool array concurrently; distinct by hash of '
-          '(thread count, repeats, pool contents, assignment)'),
-    quick=dict(configs=['tsan', 'rel'], cases=52000, maxlen=200, workers=12,
-               shares={'tsan': 9, 'rel': 3}),
-    thorough=dict(configs=['tsan', 'rel'], cases=60000, maxlen=200, workers=12,
-                  shares={'tsan': 9, 'rel': 3}, fuzz_s=0),
+                'paths the generator does not reach stay invisible; state '
+                'built from atomics (invisible to ThreadSanitizer) is only '
+                'caught when a torn or stale read actually happens in one of '
+                'the ~10^8 compared calls per run, so a window of a few '
+                'instructions that additionally needs a rare input '
+                'relationship can be missed; trusts ThreadSanitizer, glibc '
+                'malloc/qsort being thread-safe, and the harness comparison'),
+    rule=('case = (2..16 threads, repeat count, minimum lengths per pool slot '
+          '(none/64/256/1024), hot-loop entry point + parameter + group + '
+          'iteration budget, per-thread role (group member 0..3, shared or '
+          'private copy), three pool arrays from the shared array generator, '
+          'per thread 1..8 operations (codec, input selector)); non-trivial = '
+          'at least two threads run the same codec on the same shared input '
+          'concurrently (operation lists or hot loop); distinct by hash of '
+          '(thread count, repeats, pool contents, hot-loop parameters, roles, '
+          'assignment)'),
+    quick=dict(configs=['tsan', 'rel'], cases=7200, maxlen=400, workers=16,
+               shares={'tsan': 9, 'rel': 7}),
+    thorough=dict(configs=['tsan', 'rel'], cases=60000, maxlen=400, workers=16,
+                  shares={'tsan': 9, 'rel': 7}, fuzz_s=0),
     required_classes=['concurrent.for', 'concurrent.pfor', 'concurrent.dict',
                       'concurrent.dict.shared', 'concurrent.adaptive.auto',
                       'concurrent.decode.shared', 'concurrent.float',
                       'concurrent.bp128.64', 'concurrent.scalar.tagged',
-                      'op.packed12', 'op.bitstream', 'threads.9-16'],
+                      'op.packed12', 'op.bitstream', 'threads.9-16',
+                      'pool.len>=64', 'pool.len>=256', 'pool.len>=1024',
+                      'hot.len>=64', 'hot.len>=256', 'hot.len>=1024',
+                      'hot.same-input.shared', 'hot.same-input.private',
+                      'hot.other-input', 'hot.pattern',
+                      'hot.for.encode', 'hot.for.analyze', 'hot.pfor.encode',
+                      'hot.pfor.threshold', 'hot.dict.encode', 'hot.rle.encode',
+                      'hot.elias.encode', 'hot.bp128.encode',
+                      'hot.float.encode', 'hot.adaptive.encode',
+                      'hot.adaptive.analyze', 'hot.delta.encode',
+                      'hot.group.encode', 'hot.decode'],
     assumptions=COMMON_ASSUME + [
         'the harness owns thread creation and the assignment of operations to '
         'threads; the operating system owns the schedule',
@@ -44,5 +66,12 @@ PROP = dict(
         'metadata structs handed to the library are zero-initialised by the '
         'harness so that fields a codec leaves unwritten hash identically',
         'libc allocation, qsort and memcpy are thread-safe',
+        'a result mismatch is a fact about one schedule: after the first '
+        'violation of a process a shrink candidate counts only if it fails '
+        'twice in three runs (at most 120 candidates are executed), and the '
+        'first case of a process (a replay) is run up to 10 times; neither '
+        'can produce a violation that did not occur',
+        'barrier waits are bounded (20 s): a case whose threads cannot all be '
+        'started or do not all arrive is discarded, not judged',
     ],
 )
